@@ -100,7 +100,7 @@ def patch_cfg(path, consts):
         return
     s = open(path).read()
     for k, v in consts.items():
-        s, n = re.subn(r"(?m)^(\s*%s\s*=\s*).*$" % re.escape(k), lambda m: m.group(1) + str(v), s)
+        s, n = re.subn(r"(?m)^(\s*%s\s*(?:=|<-)\s*).*$" % re.escape(k), lambda m: m.group(1) + str(v), s)
         if n == 0:
             raise Machinery("cfg %s has no constant %s" % (path, k))
     open(path, "w").write(s)
